@@ -7,6 +7,8 @@ package app
 
 import (
 	"math"
+
+	m "github.com/Eyevinn/dash-mpd/mpd"
 	"net"
 	"time"
 )
@@ -210,15 +212,15 @@ func lemmaSumDurs(itvls []LossItvl, n int) {
 // C01/C02/C04: segment index <-> media time arithmetic and availability
 
 const (
-	maxSegsPerLoop  = 1000000             // VoD segments per representation
-	maxTimescale    = 10000000            // media timescale
-	maxLoopDurMS    = 1000000000          // loop duration (ms)
-	maxLoopTicks    = 1000000000          // loop duration in media timescale units (3 h at 90 kHz)
-	maxNowMS        = 8796093022208       // 2^43 ms (year 2248)
-	maxStartTimeS   = 8796093022          // availabilityStartTime (s)
-	phaseEarly      = 0
-	phaseOK         = 1
-	phaseGone       = 2
+	maxSegsPerLoop = 1000000       // VoD segments per representation
+	maxTimescale   = 10000000      // media timescale
+	maxLoopDurMS   = 1000000000    // loop duration (ms)
+	maxLoopTicks   = 1000000000    // loop duration in media timescale units (3 h at 90 kHz)
+	maxNowMS       = 8796093022208 // 2^43 ms (year 2248)
+	maxStartTimeS  = 8796093022    // availabilityStartTime (s)
+	phaseEarly     = 0
+	phaseOK        = 1
+	phaseGone      = 2
 )
 
 // wfRep: the segment table of a loaded representation is a contiguous, non-empty
@@ -413,9 +415,9 @@ func lemmaWrapDurIsRepDur(a *asset, rep *RepData) {}
 // C03: audio re-segmentation arithmetic
 
 const (
-	maxRefTime   = 380000000000000 // reference (video) media time: year 2100 at 90 kHz
-	maxAudioTs   = 48000           // audio timescale for which refTime*audioTimescale fits uint64
-	maxFrameDur  = 100000
+	maxRefTime  = 380000000000000 // reference (video) media time: year 2100 at 90 kHz
+	maxAudioTs  = 48000           // audio timescale for which refTime*audioTimescale fits uint64
+	maxFrameDur = 100000
 )
 
 // calcAudioTimeFromRef: the first audio frame boundary at or after refTime (compared as
@@ -456,7 +458,6 @@ func lemmaFrameCeilMono(t1, t2, refTimescale, fd, audioTimescale uint64) {
 	a2 := calcAudioTimeFromRef(t2, refTimescale, fd, audioTimescale)
 	assert(implies(t1 <= t2, a1 <= a2))
 }
-
 
 // findRefSegMetaFromTime: an audio $Time$ address (a multiple of the audio frame duration) is
 // mapped to the reference (video) segment whose interval contains the corresponding reference time.
@@ -521,6 +522,22 @@ func lemmaRefAvailAgrees(a *asset, cfg *ResponseConfig, k int, w uint64) {}
 //@   requires n >= 0 && N >= 1
 //@   ensures  ((n+1)%N == n%N+1 && (n+1)/N == n/N) || ((n+1)%N == 0 && n%N == N-1 && (n+1)/N == n/N+1)
 func lemmaDivStep(n, N int) {}
+
+// lastFinishedIs: r is the index of the last segment that has ended at t (-1 if none).
+func lastFinishedIs(segs []Segment, t uint64, r int) bool {
+	return -1 <= r && r < len(segs) && forall(0, r+1, func(i int) bool { return segs[i].EndTime <= t }) && (r+1 >= len(segs) || segs[r+1].EndTime > t)
+}
+
+// lemmaIdxMono: the index of the last finished segment is monotone in time.
+//@ lemma lemmaIdxMono
+//@   ensures  sortedSegs(segs) && t1 <= t2 && lastFinishedIs(segs, t1, r1) && lastFinishedIs(segs, t2, r2) ==> r1 <= r2
+func lemmaIdxMono(segs []Segment, t1, t2 uint64, r1, r2 int) {}
+
+// lemmaDivMul: quotient and remainder of k*b+c.
+//@ lemma lemmaDivMul
+//@   requires k >= 0 && 0 <= c && c < b
+//@   ensures  (k*b+c)/b == k && (k*b+c)%b == c
+func lemmaDivMul(k, c, b int) {}
 
 // lemmaGapFree: segment n+1 starts exactly where segment n ends, also across a loop wrap.
 //@ lemma lemmaGapFree
@@ -589,4 +606,108 @@ func lemmaAvailableExactly(a *asset, rep *RepData, nr uint32, cfg *ResponseConfi
 func lemmaInfiniteOffset(a *asset, rep *RepData, nr uint32, cfg *ResponseConfig, nowMS int) {
 	_, e := findSegMetaFromNr(a, rep, nr, cfg, nowMS)
 	assert(e == nil)
+}
+
+// ---------------------------------------------------------------------------
+// C02/C05: the timeline window (what the MPD lists)
+
+//@ func Segment.dur
+//@   ensures result == s.EndTime - s.StartTime
+
+// calcWrapTimes: splits the window start and "now" (ms since availabilityStartTime) into whole
+// loops and a remainder inside the loop.
+//@ func calcWrapTimes
+//@   requires a != nil && cfg != nil && a.LoopDurMS > 0 && a.LoopDurMS <= maxLoopDurMS && 0 <= cfg.StartTimeS && cfg.StartTimeS <= maxStartTimeS && cfg.StartTimeS*1000 <= nowMS && nowMS <= maxNowMS && 0 <= int(tsbd) && int(tsbd) <= 86400000000000
+//@   ensures  result.nowMS == nowMS && result.startTimeMS == max(nowMS-int(tsbd)/1000000, cfg.StartTimeS*1000)
+//@   ensures  0 <= result.startRelMS && result.startRelMS < a.LoopDurMS && 0 <= result.startWraps && result.startWraps*a.LoopDurMS+result.startRelMS == result.startTimeMS-cfg.StartTimeS*1000
+//@   ensures  0 <= result.nowRelMS && result.nowRelMS < a.LoopDurMS && 0 <= result.nowWraps && result.nowWraps*a.LoopDurMS+result.nowRelMS == nowMS-cfg.StartTimeS*1000
+//@   ensures  result.startWraps <= result.nowWraps
+//@   ensures  result.startWrapMS == result.startWraps*a.LoopDurMS+cfg.StartTimeS*1000 && result.nowWrapMS == result.nowWraps*a.LoopDurMS+cfg.StartTimeS*1000
+
+// wfWrapTimes: what calcWrapTimes guarantees, as needed by generateTimelineEntries.
+func wfWrapTimes(a *asset, wt wrapTimes) bool {
+	return 0 <= wt.startRelMS && wt.startRelMS < a.LoopDurMS && 0 <= wt.startWraps && 0 <= wt.nowRelMS && wt.nowRelMS < a.LoopDurMS && 0 <= wt.nowWraps &&
+		wt.startWraps*a.LoopDurMS+wt.startRelMS <= wt.nowWraps*a.LoopDurMS+wt.nowRelMS && wt.nowWraps <= 4000000
+}
+
+// relTicks: a time inside the loop in ms, converted to media ticks the way the code does.
+func relTicks(rep *RepData, relMS, atoMS int) uint64 {
+	return uint64(relMS*rep.MediaTimescale/1000) + uint64(atoMS*rep.MediaTimescale/1000)
+}
+
+// nrListed: number of segments listed by the first n timeline entries (each S element lists R+1).
+func nrListed(entries []*m.S, n int) int {
+	if n <= 0 {
+		return 0
+	}
+	return nrListed(entries, n-1) + entries[n-1].R + 1
+}
+
+//@ recursive nrListed
+
+// generateTimelineEntries: memory safety and termination for every well-formed window, the
+// timescale, "nothing listed" exactly when no segment has ended, startNr <= lsi.nr, and a first
+// entry with an explicit start time. (The functional characterisation of lsi.nr / lsi.startTime /
+// the number of listed segments was attempted and is NOT claimed: see DESIGN.md, C02.)
+//@ func (*asset).generateTimelineEntries
+//@   nowrap assumed
+//@   requires a != nil && a.Reps != nil && a.Reps[repID] != nil && wfRep(a.Reps[repID]) && orderedRep(a.Reps[repID]) && loopExact(a, a.Reps[repID]) && wfWrapTimes(a, wt) && 0 <= atoMS && atoMS <= 86400000
+//@   ensures  ts: result.mediaTimescale == uint32(a.Reps[repID].MediaTimescale)
+//@   ensures  none: result.lsi.nr == -1 <==> result.startNr == -1
+//@   ensures  range: result.startNr >= 0 ==> result.startNr <= result.lsi.nr
+//@   ensures  first: result.startNr >= 0 ==> len(result.entries) >= 1 && result.entries[0] != nil && result.entries[0].T != nil
+//@   allocates
+//@   loop 1 invariant rep == a.Reps[repID] && nrSegs == len(rep.Segments) && segs == rep.Segments && se.startNr >= 0 && se.startNr < nr
+//@   loop 1 invariant lsi.nr == nr-1 || lsi.nr == se.startNr
+//@   loop 1 invariant lsi.nr >= se.startNr
+//@   loop 1 invariant s != nil && fresh(s) && len(se.entries) >= 1 && fresh(se.entries) && se.mediaTimescale == uint32(rep.MediaTimescale)
+//@   loop 1 invariant se.entries[0] != nil && se.entries[0].T != nil && fresh(se.entries[0])
+//@   loop 1 decreases nowNr + 1 - nr
+
+// ---------------------------------------------------------------------------
+// C05: publishTime
+
+// availabilityTime: end of the newest listed segment in seconds minus the availabilityTimeOffset (exactly).
+//@ func lastSegInfo.availabilityTime
+//@   realdiv
+//@   requires l.timescale > 0 && l.timescale <= maxTimescale && l.startTime <= 4000000000000000000 && l.dur <= 4000000000
+//@   ensures  result == float64(l.startTime+l.dur)/float64(l.timescale) - ato
+//@   ensures  exact: (result+ato)*float64(l.timescale) == float64(l.startTime+l.dur)
+
+// lastSegAvailTimeS: availabilityStartTime plus that time, never before availabilityStartTime.
+//@ func lastSegAvailTimeS
+//@   requires cfg != nil && (lsi.nr < 0 || (lsi.timescale > 0 && lsi.timescale <= maxTimescale && lsi.startTime <= 4000000000000000000 && lsi.dur <= 4000000000))
+//@   ensures  lsi.nr < 0 ==> result == float64(cfg.StartTimeS)
+//@   ensures  lsi.nr >= 0 ==> result == max(float64(cfg.StartTimeS), float64(lsi.startTime+lsi.dur)/float64(lsi.timescale) - cfg.AvailabilityTimeOffsetS + float64(cfg.StartTimeS))
+//@   ensures  result >= float64(cfg.StartTimeS)
+
+// calcPublishTime: constant (availabilityStartTime) for plain $Number$ templates, otherwise the
+// availability time of the newest listed segment.
+//@ func calcPublishTime
+//@   requires cfg != nil && (lsi.nr < 0 || (lsi.timescale > 0 && lsi.timescale <= maxTimescale && lsi.startTime <= 4000000000000000000 && lsi.dur <= 4000000000))
+//@   ensures  !cfg.SegTimelineFlag && !cfg.SegTimelineNrFlag ==> result == float64(cfg.StartTimeS)
+//@   ensures  (cfg.SegTimelineFlag || cfg.SegTimelineNrFlag) && lsi.nr >= 0 ==> result == max(float64(cfg.StartTimeS), float64(lsi.startTime+lsi.dur)/float64(lsi.timescale) - cfg.AvailabilityTimeOffsetS + float64(cfg.StartTimeS))
+//@   ensures  result >= float64(cfg.StartTimeS)
+
+//@ func (*ResponseConfig).liveMPDType
+//@   requires rc != nil
+//@   ensures  (rc.SegTimelineFlag ==> result == timeLineTime) && (!rc.SegTimelineFlag && rc.SegTimelineNrFlag ==> result == timeLineNumber) && (!rc.SegTimelineFlag && !rc.SegTimelineNrFlag ==> result == segmentNumber)
+
+// lemmaPublishTime: publishTime is never later than the request instant when the newest listed
+// segment is available at that instant (what findSegMetaFromNr decides), is injective in the end
+// time of that segment (different newest segments give different publishTime when ends differ),
+// and does not depend on the request instant otherwise.
+//@ lemma lemmaPublishTime
+//@   realdiv
+//@   requires cfg != nil && cfg.SegTimelineFlag && cfg.StartTimeS >= 0 && cfg.AvailabilityTimeOffsetS >= 0.0 && cfg.AvailabilityTimeOffsetS <= 100000.0
+//@   requires l1.nr >= 0 && l2.nr >= 0 && l1.timescale == l2.timescale && l1.timescale > 0 && l1.timescale <= maxTimescale && l1.startTime <= 4000000000000000000 && l1.dur <= 4000000000 && l2.startTime <= 4000000000000000000 && l2.dur <= 4000000000
+func lemmaPublishTime(cfg *ResponseConfig, l1, l2 lastSegInfo, nowS float64) {
+	p1 := calcPublishTime(cfg, l1)
+	p2 := calcPublishTime(cfg, l2)
+	// monotone in the end of the newest listed segment
+	assert(implies(l1.startTime+l1.dur <= l2.startTime+l2.dur, p1 <= p2))
+	// a segment that has ended (less the offset) at nowS gives a publishTime <= nowS
+	assert(implies(float64(l1.startTime+l1.dur)/float64(l1.timescale)+float64(cfg.StartTimeS)-cfg.AvailabilityTimeOffsetS <= nowS && float64(cfg.StartTimeS) <= nowS, p1 <= nowS))
+	// same publishTime (above availabilityStartTime) means same end of the newest segment
+	assert(implies(p1 == p2 && p1 > float64(cfg.StartTimeS), l1.startTime+l1.dur == l2.startTime+l2.dur))
 }
